@@ -524,6 +524,80 @@ def expand_expr_helpers(ctx, fn):
     return out
 
 
+def _scope_rename(node, ren, top=True):
+    """rename the locals `ren` (old -> new) of a function: in its own scope and in nested scopes that read them as free variables (a nested scope
+    that binds the name itself -- parameter, or assigned without nonlocal -- is left alone)"""
+    for ch in ast.iter_child_nodes(node):
+        if isinstance(ch, (ast.FunctionDef, ast.AsyncFunctionDef, ast.Lambda)):
+            a = ch.args
+            bound = {x.arg for x in a.posonlyargs + a.args + a.kwonlyargs} | ({a.vararg.arg} if a.vararg else set()) | ({a.kwarg.arg} if a.kwarg else set())
+            if not isinstance(ch, ast.Lambda):
+                nl = {n_ for x in walk_no_defs(ch) if isinstance(x, (ast.Nonlocal, ast.Global)) for n_ in x.names}
+                bound |= {x.id for x in walk_no_defs(ch) if isinstance(x, ast.Name) and isinstance(x.ctx, (ast.Store, ast.Del))} - nl
+            sub = {k: v for k, v in ren.items() if k not in bound}
+            # defaults / decorators are evaluated in the enclosing scope
+            for d_ in list(a.defaults) + [x for x in a.kw_defaults if x is not None] + list(getattr(ch, "decorator_list", [])):
+                _scope_rename(ast.Expression(body=d_), ren, False)
+            if sub:
+                for b_ in (ch.body if isinstance(ch.body, list) else [ch.body]):
+                    _scope_rename(ast.Module(body=[b_], type_ignores=[]) if isinstance(b_, ast.stmt) else ast.Expression(body=b_), sub, False)
+            continue
+        if isinstance(ch, ast.ClassDef):
+            continue
+        if isinstance(ch, ast.Name) and ch.id in ren:
+            ch.id = ren[ch.id]
+        elif isinstance(ch, ast.ExceptHandler) and ch.name in ren:
+            ch.name = ren[ch.name]
+        elif isinstance(ch, (ast.Nonlocal, ast.Global)):
+            ch.names = [ren.get(n_, n_) for n_ in ch.names]
+        _scope_rename(ch, ren, False)
+
+
+def recover_names(ctx, fn, roles):
+    """Rules read a few locals of long functions by the name the code gives them today.  So that a rename is not mistaken for a change of behaviour, the
+    local playing a ROLE is identified by what it is computed from and renamed back to the canonical name before the rules look:
+      roles = [(canonical, kind, pred)] with kind "def": pred(value expr) over plain assignments `name = value`; "for": pred(iterable) over `for name in it`;
+      "use": pred(function node) -> set of names.
+    Nothing is renamed when the role has no or more than one candidate, or the canonical name is already taken by another variable (the rules then see
+    the code as it is and judge it as before).  Parameters are never renamed."""
+    import copy
+    node = fn.node
+    a = node.args
+    params = {x.arg for x in a.posonlyargs + a.args + a.kwonlyargs} | ({a.vararg.arg} if a.vararg else set()) | ({a.kwarg.arg} if a.kwarg else set())
+    own_names = {x.id for x in walk_no_defs(node) if isinstance(x, ast.Name)} | {x.name for x in walk_no_defs(node, include_defs=True) if hasattr(x, "name") and isinstance(x.name, str)}
+    ren = {}
+    for canonical, kind, pred in roles:
+        cands = set()
+        if kind == "def":
+            for st in walk_no_defs(node):
+                if isinstance(st, ast.Assign) and len(st.targets) == 1 and isinstance(st.targets[0], ast.Name) and pred(st.value):
+                    cands.add(st.targets[0].id)
+                elif isinstance(st, ast.AnnAssign) and isinstance(st.target, ast.Name) and st.value is not None and pred(st.value):
+                    cands.add(st.target.id)
+        elif kind == "for":
+            for st in walk_no_defs(node):
+                if isinstance(st, (ast.For, ast.AsyncFor)) and isinstance(st.target, ast.Name) and pred(st.iter):
+                    cands.add(st.target.id)
+        elif kind == "use":
+            cands = set(pred(node) or ())
+        cands -= params
+        if len(cands) != 1:
+            continue
+        old = next(iter(cands))
+        if old == canonical or canonical in own_names or canonical in ren.values() or old in ren:
+            continue
+        ren[old] = canonical
+    if not ren:
+        return fn
+    from ..core.index import FuncInfo
+    new = copy.deepcopy(node)
+    _scope_rename(new, ren)
+    out = FuncInfo(fn.module, fn.cls, new, parent=fn.parent)
+    out.variant = ((getattr(fn, "variant", "") or "") + "+names-recovered").lstrip("+")
+    out.recovered = dict(ren)
+    return out
+
+
 def deep_calls(ctx, cls, calls, depth=2):
     """The given Call nodes plus -- for every `self._helper(...)` among them that resolves to a private method of the class hierarchy -- the calls in
     that helper's body (recursively, bounded). Rules that ask "does this path send X" then see the send whether or not it was moved into a helper."""
